@@ -20,6 +20,53 @@ PROPS = {
                 "not a multiple of the block size. Distinct = FNV-1a hash of the canonical JSON of the history.",
         "assumptions": COMMON_ASSUME + ["segments >= 2^29 bytes and totals >= 2^32 are left to C15"],
     },
+    "C02": {
+        "title": "AES-GCM one-shot output equals NIST SP 800-38D for every length, AAD, tag size",
+        "variant": "default",
+        "quick": {"cases": 160000},
+        "thorough": {"cases": 6000000, "opts": ["bigmax=1200000"]},
+        "rule": "rapidcheck cases over key size x {sse, avx_gen2, avx_gen4, vaes_avx512, legacy, isal_} x {regular, nt} x {enc, dec}; key/IV/AAD/data from a "
+                "seed; data length mixture (0..1100 dense, 4080..4112, 65520..65552, up to bigmax), AAD length mixture, tag 8/12/16, in place or not, "
+                "every buffer placed against a guard page or shifted to an arbitrary alignment; key data precomputed by the same family. Oracle: "
+                "independent SP 800-38D reference (output and tag), library enc/dec round trip. Non-trivial = len not a multiple of 16, or len > 128, "
+                "or aad_len not a multiple of 16. Distinct = hash of the case JSON.",
+        "assumptions": COMMON_ASSUME,
+    },
+    "C03": {
+        "title": "AES-XTS equals IEEE 1619 incl. ciphertext stealing; expanded-key forms agree",
+        "variant": "default",
+        "quick": {"cases": 160000},
+        "thorough": {"cases": 5000000, "opts": ["huge=1"]},
+        "rule": "rapidcheck cases over key size x {sse, avx, vaes, legacy, isal_} x {enc, dec} x {raw, expanded key}; keys/tweak/data from a seed; len mixture "
+                "(0..15 for the no-op clause with both buffers made inaccessible, 16..640 dense, 1008..1056, 4080..4128, 65536+-17, up to 40000; thorough "
+                "adds lengths at 2^24); in==out or disjoint; data, keys, schedules and tweak guard-page flush or at arbitrary alignment; expanded "
+                "schedules come from the reference key expansion. Oracle: independent IEEE 1619 reference, library decrypt(encrypt(x)) = x, expanded = raw via "
+                "the reference. Non-trivial = len%16 != 0 or (len/16)%8 != 0. Distinct = hash of the case JSON.",
+        "assumptions": COMMON_ASSUME,
+    },
+    "C04": {
+        "title": "AES key expansion equals FIPS-197; AES-CBC equals SP 800-38A, all key sizes",
+        "variant": "default",
+        "quick": {"cases": 120000},
+        "thorough": {"cases": 3000000},
+        "rule": "rapidcheck cases over {128,192,256} x entry (keyexp {sse, avx, legacy, isal_}, cbc enc {x4, x8, legacy, isal_}, cbc dec {sse, avx, vaes_avx512, "
+                "legacy, isal_}); keys/IV/data from a seed; N blocks in {1..80 dense, 255..257, 81..1200, 4096}; in place / out of place; IV and schedules "
+                "16-byte aligned as documented, data anywhere. Oracle: reference key schedule compared byte for byte with both arrays the library wrote; "
+                "reference CBC. Non-trivial = key expansion case, or N not a multiple of 8 (16 for vaes), or in-place decrypt with N>8. Distinct = hash of the "
+                "case JSON (key expansion: entry+seed).",
+        "assumptions": COMMON_ASSUME,
+    },
+    "C07": {
+        "title": "AES-GCM streaming (init/update*/finalize) equals one-shot for any segmentation",
+        "variant": "default",
+        "quick": {"cases": 120000},
+        "thorough": {"cases": 4000000, "opts": ["bigpiece=300000"]},
+        "rule": "rapidcheck cases: C02 inputs plus a composition of len into 1..12 update lengths (0, 1..15, 16, 17..130, multiples of 16, up to bigpiece) so "
+                "that every (carried residue, fill) pair occurs; nt updates only with non-final pieces multiple of 64 and 64-byte aligned buffers. Oracle: output "
+                "of every update compared with the SP 800-38D reference as soon as it returns, final tag vs reference, and both vs the library's own one-shot "
+                "call of the same family. Non-trivial = >=2 updates with a non-zero carried partial block between them. Distinct = hash of the case JSON.",
+        "assumptions": COMMON_ASSUME,
+    },
 }
 
 # properties not (yet) claimed; kept current as checks are added
